@@ -215,7 +215,7 @@ def build(t):
         else:
             idx = tuple(slice(d, o) for d, o in zip(t[2], t[3]))
         c = it[idx if len(idx) > 1 else idx[0]]
-    elif k == "St" and DECL[0] == "shared-fields" and any(is_dyn(ft) for _, ft in t[1]):
+    elif k == "St" and DECL[0] == "shared-fields":
         # the Field objects of the struct are TAKEN OVER from a donor struct in which a string comes first, so that every
         # dynamic field of the struct is a later dynamic field there (class Taker: samples = Donor.samples)
         donor = type("Dn" + tname(t), (xo.Struct,), dict({"zz_first": xo.Field(xo.String, default="donor")}, **{n: xo.Field(build(ft)) for n, ft in t[1]}))
